@@ -162,3 +162,22 @@ Example ex_js_regexp_dupflag : exists l, run_regexp idc_sample [47;97;47;103;103
 Proof. eexists. vm_compute. reflexivity. Qed.
 Example ex_idc_sample_eof : idc_sample eof = false.
 Proof. reflexivity. Qed.
+
+From V Require Import C16.JsIdent.
+(* #a\u{62}c = : a private name with a bracketed escape: 10 bytes *)
+Example ex_js_roi : jsRangeOfIdentifier ids_sample idc_sample2 [35;97;92;117;123;54;50;125;99;32;61] = Ok 9.
+Proof. vm_compute. reflexivity. Qed.
+(* not an identifier: the fallback measures a string literal, 'a\'b' is 6 bytes *)
+Example ex_js_roi_string : jsRangeOfIdentifier ids_sample idc_sample2 [39;97;92;39;98;39;59] = Ok 6.
+Proof. vm_compute. reflexivity. Qed.
+(* an escape whose brace never closes runs to the end of the text and falls back *)
+Example ex_js_roi_open_brace : jsRangeOfIdentifier ids_sample idc_sample2 [97;92;117;123;54;50] = Ok 0.
+Proof. vm_compute. reflexivity. Qed.
+
+From V Require Import C16.JsPragma.
+(* "@jsx  h.x y" with pragma "@jsx" (4 bytes), skipping spaces first: the argument is "h.x" at offset 16 *)
+Example ex_pragma : scanForPragmaArg js_ws true 10 4 [64;106;115;120;32;32;104;46;120;32;121] = Ok (Some ([104;46;120], 16, 3)).
+Proof. vm_compute. reflexivity. Qed.
+(* the argument runs to the end of the text and ends in a truncated UTF-8 byte *)
+Example ex_pragma_eof : scanForPragmaArg js_ws false 0 1 [61;97;195] = Ok (Some ([97;195], 1, 2)).
+Proof. vm_compute. reflexivity. Qed.
